@@ -138,6 +138,13 @@ def run_case(case):
                                                 else [0.1] * 6 + [0.15] * 5 + [0.2])
     if abs(float(np.sum(first.trace.dz0)) - round(sum(dz0), 2)) > 1e-9:
         cov["sets_deepened"] += 1
+    # the weather table is the one object whose *content* is its meaning: it must be the table
+    # the user handed over (same rows, same values) after a run
+    after_first = snap(kw["weather_df"])
+    cov["weather_table_unchanged_checks"] += 1
+    if after_first != before["weather_df"]:
+        acc.add("user-weather-changed", "the user's weather table is not the same after the first run "
+                f"({before['weather_df'][1:2]} -> {after_first[1:2]}; rows/values differ)", dict())
     gens = 0
     model = first.model
     plan = [("re-run of the same model object", "rerun"), ("second re-run of the same model object", "rerun"),
